@@ -75,6 +75,7 @@ Step(ln) ==
       [] ln.op = "EnsureSize" -> EnsureSize(ln.a)
       [] ln.op = "EnsureSizeSet" -> EnsureSizeSet(ln.a)
       [] ln.op = "EnsureSizeX" -> EnsureSizeX(ln.a, ln.b, ln.c)
+      [] ln.op = "EnsureSizeSetX" -> EnsureSizeSetX(ln.a, ln.b, ln.c)
       [] ln.op = "EnsureCanAdd" -> EnsureCanAdd(ln.a)
       [] ln.op = "ShrinkToFit" -> ShrinkToFit(ln.a)
       [] ln.op = "Normalize" -> Normalize
